@@ -11,7 +11,7 @@ RULE = ("random programs using constants as gate argument, qubit index, register
         "let evaluation on the input IR; non-trivial = at least one constant is referenced; distinct = S-expression + overrides")
 ASSUMPTIONS = ["reference let evaluation in vf/meaning.py", "override values are numbers; overrides that the reference "
                "semantics finds out of range are not judged here (C14)"]
-TIERS = {"quick": {"shards": 8, "budget_s": 110}, "thorough": {"shards": 16, "budget_s": 300}}
+TIERS = {"quick": {"shards": 8, "budget_s": 220}, "thorough": {"shards": 16, "budget_s": 300}}
 REQUIRE = {"via-parser-expand-macro-and-let": 500, "circuits-with-a-branch-statement": 100, "gate-set-in-force": 3000, "via-parser-expand-let-map": 500, "calls-after-earlier-calls-on-same-object": 500, "override-used": 200, "let-sized-register": 100, "let-bound-map": 100, "shadowed-let-in-macro": 20,
            "via-parser": 100, "let-count": 100}
 
